@@ -11,9 +11,6 @@ Import ListNotations.
 From YP Require Import Base.Str Comp.PyRepr Comp.PyLex Comp.PyReprSound.
 Local Open Scope N_scope.
 
-Definition surrogates_unprintable (printable : N -> bool) : Prop :=
-  forall c, is_surrogate c = true -> printable c = false.
-
 (* The Python lexer, started at a literal written by repr and followed by ANY text, consumes
    exactly the literal and denotes exactly s: nothing in s can close the quote, open an
    escape sequence of its own, or end the line.
@@ -97,6 +94,22 @@ Theorem C12R_lex_consumes_prefix : forall input out rest,
   py_lex_string input = Some (out, rest) -> exists lit, input = lit ++ rest /\ (2 <= length lit)%nat.
 Proof. exact py_lex_string_suffix. Qed.
 Print Assumptions C12R_lex_consumes_prefix.
+
+(* every literal the lexer accepts is  quote, body, the same quote  where the body contains no line
+   feed, carriage return, NUL, surrogate or out-of-range code point, and denotes valid code points *)
+Theorem C12R_lex_literal_shape : forall input out rest,
+  py_lex_string input = Some (out, rest) ->
+  exists q body, input = q :: body ++ q :: rest /\ (q = SQ \/ q = DQ) /\
+                 Forall (fun c => bad_raw c = false) body /\ Forall (fun c => c < MAXCP) out.
+Proof. exact py_lex_string_shape. Qed.
+Print Assumptions C12R_lex_literal_shape.
+
+(* in particular an accepted literal never spans lines *)
+Theorem C12R_lex_one_line : forall input out rest,
+  py_lex_string input = Some (out, rest) ->
+  exists lit, input = lit ++ rest /\ Forall (fun c => c <> 10 /\ c <> 13) lit.
+Proof. exact py_lex_string_one_line. Qed.
+Print Assumptions C12R_lex_one_line.
 
 (* non-vacuity: a hostile string of valid code points (quotes of both kinds, backslash, line feed,
    NUL, U+2028, an astral code point) followed by hostile text; the literal has the expected
